@@ -27,20 +27,33 @@ Arguments lit s%string_scope.
    registration covering it; every PU is in exactly one kind if registered
    and in none otherwise. *)
 Theorem register_inv : forall regs st cs forced infos flags st',
-  Inv regs st ->
+  Inv true regs st ->
   internal_register st cs forced infos flags = IOk st' ->
   (N.land flags OVERWRITE =? 0)%N = false ->
-  Inv (R cs forced (infos_of infos) :: regs) st'.
-Proof. exact internal_register_inv. Qed.
+  Inv true (R cs forced (infos_of infos) :: regs) st'.
+Proof. exact register_inv_overwrite. Qed.
 Print Assumptions register_inv.
 
+(* the same for ANY flags (the OS backends pass 0, where a merge keeps an
+   already known forced efficiency): everything except the forced-efficiency
+   clause ([Inv false]); [Inv true] implies [Inv false] *)
+Theorem register_inv_any_flags : forall regs st cs forced infos flags st',
+  Inv false regs st ->
+  internal_register st cs forced infos flags = IOk st' ->
+  Inv false (R cs forced (infos_of infos) :: regs) st'.
+Proof. exact register_inv_any_flags_spec. Qed.
+Print Assumptions register_inv_any_flags.
+Theorem inv_forced_clause_optional : forall regs st, Inv true regs st -> Inv false regs st.
+Proof. exact Inv_weaken. Qed.
+Print Assumptions inv_forced_clause_optional.
+
 (* the invariant in plain words: non-empty, pairwise disjoint, union = union of the registrations *)
-Theorem register_union : forall regs st, Inv regs st ->
+Theorem register_union : forall regs st, Inv true regs st ->
   (forall k, In k (kinds st) -> bs_is_empty (k_cpuset k) = false) /\
   (forall i j a b, i <> j -> nth_error (kinds st) i = Some a -> nth_error (kinds st) j = Some b ->
                    bs_intersects (k_cpuset a) (k_cpuset b) = false) /\
   (forall p, (exists k, In k (kinds st) /\ mem p (k_cpuset k) = true) <-> registered regs p = true).
-Proof. exact Inv_partition. Qed.
+Proof. exact (Inv_partition true). Qed.
 Print Assumptions register_union.
 
 (* no slot index outside the allocated array (whatever the state, even a
@@ -64,8 +77,8 @@ Print Assumptions register_einval.
 
 (* ---- restrict ---- *)
 Theorem restrict_inv : forall env regs st t,
-  Inv regs st -> Inv (map (restrict_reg t) regs) (restrict_state env st t).
-Proof. exact restrict_state_inv. Qed.
+  Inv true regs st -> Inv true (map (restrict_reg t) regs) (restrict_state env st t).
+Proof. exact (restrict_state_inv true). Qed.
 Print Assumptions restrict_inv.
 
 (* ---- histories ---- *)
@@ -79,29 +92,39 @@ Print Assumptions history_safe.
 
 (* every history leaves a state satisfying the invariant w.r.t. its effective registrations *)
 Theorem history_inv : forall h st rc,
-  run init_state h = Fine st rc -> Inv (ghost [] h) st.
-Proof. exact history_inv_init. Qed.
+  run init_state h = Fine st rc -> Inv true (ghost [] h) st.
+Proof. exact (history_inv_init true). Qed.
 Print Assumptions history_inv.
 
 (* ... and the only way not to end in such a state is the 2^29-kinds shift *)
 Theorem history_total : forall h,
-  run init_state h = Fatal F_UB \/ exists st rc, run init_state h = Fine st rc /\ Inv (ghost [] h) st.
-Proof. exact history_total_init. Qed.
+  run init_state h = Fatal F_UB \/ exists st rc, run init_state h = Fine st rc /\ Inv true (ghost [] h) st.
+Proof. exact (history_total_init true). Qed.
 Print Assumptions history_total.
 
 Theorem history_in_bounds : forall h st, run st h <> Fatal F_OOB.
 Proof. exact run_no_oob. Qed.
 Print Assumptions history_in_bounds.
 
-Theorem history_no_undefined_shift : forall h, no_xml h -> (length h <= 29)%nat -> run init_state h <> Fatal F_UB.
-Proof. exact history_no_ub_init. Qed.
+(* over a universe of n < 2^29 PUs (every registered cpuset inside [0,n)) there are
+   never more than n kinds (pigeonhole), so the undefined shift 1U<<32 of the
+   capacity computation is out of reach for histories of any length, XML reload
+   included: every such history ends in a state satisfying the invariant *)
+Theorem history_no_undefined_shift : forall n h,
+  (N.of_nat n < 2 ^ 29)%N -> in_universe n h -> run init_state h <> Fatal F_UB.
+Proof. exact history_no_ub_universe_init. Qed.
 Print Assumptions history_no_undefined_shift.
+Theorem history_total_finite_universe : forall n h,
+  (N.of_nat n < 2 ^ 29)%N -> in_universe n h ->
+  exists st rc, run init_state h = Fine st rc /\ Inv true (ghost [] h) st /\ (length (kinds st) <= n)%nat.
+Proof. exact history_total_universe_init. Qed.
+Print Assumptions history_total_finite_universe.
 
 (* ---- hwloc_cpukinds_get_by_cpuset ---- *)
 (* under the invariant: the index of the kind containing the set; EXDEV iff no
    kind contains it but some kind meets it; ENOENT iff it meets none; never EINVAL for a non-empty set *)
 Theorem get_by_cpuset_exact : forall regs st q,
-  Inv regs st -> bs_is_empty q = false ->
+  Inv true regs st -> bs_is_empty q = false ->
   match get_by_cpuset st (Some q) 0%N with
   | G_OK j => exists k, nth_error (kinds st) j = Some k /\ bs_subset q (k_cpuset k) = true
   | G_EXDEV => (forall k, In k (kinds st) -> bs_subset q (k_cpuset k) = false) /\
@@ -109,7 +132,7 @@ Theorem get_by_cpuset_exact : forall regs st q,
   | G_ENOENT => forall k, In k (kinds st) -> bs_intersects q (k_cpuset k) = false
   | G_EINVAL => False
   end.
-Proof. exact get_by_cpuset_spec. Qed.
+Proof. exact (get_by_cpuset_spec true). Qed.
 Print Assumptions get_by_cpuset_exact.
 
 Theorem get_by_cpuset_einval : forall st q fl,
@@ -155,9 +178,9 @@ Print Assumptions forced_ranking_respected.
 
 (* ---- XML export + import ---- *)
 Theorem xml_reload_same_kinds : forall env regs st st' rc,
-  Inv regs st -> xml_reload env st = Fine st' rc ->
-  kinds st' = rank_kinds env (map fresh (kinds st)) /\ Inv regs st'.
-Proof. exact xml_reload_spec. Qed.
+  Inv true regs st -> xml_reload env st = Fine st' rc ->
+  kinds st' = rank_kinds env (map fresh (kinds st)) /\ Inv true regs st'.
+Proof. exact (xml_reload_spec true). Qed.
 Print Assumptions xml_reload_same_kinds.
 
 (* ---- non-vacuity ---- *)
@@ -196,7 +219,7 @@ Definition example_history : list (option str * op) :=
     (None, OpXml) ].
 Example example_history_runs :
   exists st, run init_state example_history = Fine st RC_OK /\ length (kinds st) = 6%nat /\
-             no_xml (firstn 10 example_history) /\
+             in_universe 8 (firstn 8 example_history) /\
              map k_eff (kinds st) = [0; 1; 2; 3; 4; 5] /\ map k_forced (kinds st) = [1; 2; 3; 6; 7; 8].
 Proof.
   eexists. split; [vm_compute; reflexivity|]. split; [reflexivity|].
